@@ -12,9 +12,9 @@
 From Coq Require Import NArith List String Bool.
 From Falco Require Import Model.Val Model.Assign.
 From Falco Require Import Base.TablesBase Model.ScopeMask Model.LintTables Model.LintOps Model.TablesDomain
-  Model.InterpAssign Proofs.ScopeMaskProofs Proofs.TablesProofs Proofs.InterpAssignProofs.
+  Model.InterpAssign Proofs.ScopeMaskProofs Proofs.TablesProofs Proofs.InterpAssignProofs Proofs.Tables2Proofs.
 From Falco Require Import Gen.LintConsts Gen.LintVars Gen.LintDyn Gen.LintFuncs Gen.RefVars Gen.RefFuncs Gen.InterpFuncs.
-From Falco Require Import Gen.ObsVars Gen.ObsFuncs Gen.ObsStmts Gen.ObsOps Gen.ObsWide Gen.KnownGaps.
+From Falco Require Import Gen.ObsVars Gen.ObsFuncs Gen.ObsStmts Gen.ObsOps Gen.ObsWide Gen.ObsCoerce Gen.ObsInferred Gen.KnownGaps.
 Import ListNotations.
 Local Open Scope N_scope.
 Local Open Scope string_scope.
@@ -106,7 +106,7 @@ Proof. exact obs_wide_domain. Qed.
 
 (* ---- the linter accepts exactly what the reference allows (every scope of the mask) *)
 Theorem C05_lint_ops_eq_ref : forall op lty lint interp p rty form,
-  In (op, lty, lint, interp) obs_ops -> In (p, rty, form) op_cells_existing -> In op assign_ops ->
+  In (op, lty, lint, interp) obs_ops -> In (p, rty, form) op_cells_base -> In op assign_ops ->
   N.testbit lint p = ref_assign op lty rty form \/ gap_covers "op-ref" op lty p = true.
 Proof. exact lint_ops_eq_ref. Qed.
 
@@ -175,6 +175,57 @@ Theorem C05_interp_assign_agrees_with_value_model : forall o lt rt lit,
   = do_assign_ok (op_name o) (vt_of lt) (vt_of rt) lit.
 Proof. exact interp_assign_agrees_with_value_model. Qed.
 
+(* ---- a value of type T in eight forms (literal / identifier, local, predefined variable, PARAMETER of a functional
+   subroutine bound from each of these, if() expression, function result) where a value of type E is expected:
+   ctx = arg (built-in argument), ret (return value of a functional subroutine), par (typed parameter).
+   Domain: coerce_rows (3 contexts x 9 expected types) x op_cells_existing (10 value types x 8 forms, existing ones).
+   The operator theorems above range over the same eight forms. *)
+Theorem C05_obs_coerce_domain : map (fun r => match r with (c, e, _, _) => (c, e) end) obs_coerce = coerce_rows.
+Proof. exact obs_coerce_domain. Qed.
+
+Theorem C05_coerce_models_eq_observed : forall cx e lint interp p t form,
+  In (cx, e, lint, interp) obs_coerce -> In (p, t, form) op_cells_existing ->
+  lint_coerce_model cx e t form = N.testbit lint p /\ interp_coerce_model cx e t form = N.testbit interp p.
+Proof. exact coerce_models_eq_observed. Qed.
+
+Theorem C05_lint_sub_interp_coerce : forall cx e lint interp p t form,
+  In (cx, e, lint, interp) obs_coerce -> In (p, t, form) op_cells_existing ->
+  N.testbit lint p = true ->
+  N.testbit interp p = true \/ gap_covers "coerce-interp" cx e p = true.
+Proof. exact lint_sub_interp_coerce. Qed.
+
+Theorem C05_lint_sub_interp_coerce_models : forall cx e p t form,
+  In cx coerce_ctxs -> In e value_types -> In (p, t, form) op_cells_existing ->
+  lint_coerce_model cx e t form = true ->
+  interp_coerce_model cx e t form = true \/ gap_covers "coerce-interp" cx e p = true.
+Proof. exact lint_sub_interp_coerce_models. Qed.
+
+Theorem C05_lint_sub_interp_coerce_refuted : exists cx e lint interp p t form,
+  In (cx, e, lint, interp) obs_coerce /\ In (p, t, form) op_cells_existing /\
+  N.testbit lint p = true /\ N.testbit interp p = false.
+Proof. exact lint_sub_interp_coerce_refuted. Qed.
+
+(* ---- scopes obtained by the linter's CALL-GRAPH INFERENCE (no @scope annotation): the use in the innermost of
+   1..3 un-annotated helpers called from every pair (thorough tier: also every triple, depth 2) of lifecycle
+   subroutines.  Domain: inferred_rows (representatives of every accessor class / function scope mask in the quick
+   tier, every variable and function in the thorough tier; all 14 statements) x depths 1..3 x pair_masks. *)
+Theorem C05_obs_inferred_domain :
+  map obs_inferred_key obs_inferred = inferred_rows obs_http_names obs_inferred_full /\
+  map obs_inferred_key obs_inferred3 = inferred3_rows obs_http_names obs_inferred_full.
+Proof. exact obs_inferred_domain. Qed.
+
+Theorem C05_lint_inferred_eq_model : forall k n a d lint interp m,
+  In (k, n, a, d, lint, interp) obs_inferred -> In m pair_masks ->
+  lint_use_model the_ctx k n a m = N.testbit lint m /\
+  (N.testbit lint m = true -> N.testbit interp m = true \/ use_gap_covers k n a m = true).
+Proof. exact lint_inferred_eq_model. Qed.
+
+Theorem C05_lint_inferred3_eq_model : forall k n a d lint interp m,
+  In (k, n, a, d, lint, interp) obs_inferred3 -> In m triple_masks ->
+  lint_use_model the_ctx k n a m = N.testbit lint m /\
+  (N.testbit lint m = true -> N.testbit interp m = true \/ use_gap_covers k n a m = true).
+Proof. exact lint_inferred3_eq_model. Qed.
+
 (* where both sides give a type to a read of the variable it is the same type *)
 Theorem C05_lint_types_eq_interp : forall n tys s t,
   In (n, tys) obs_var_types -> In s positions9 ->
@@ -221,6 +272,14 @@ Print Assumptions C05_lint_sub_interp_stmts.
 Print Assumptions C05_interp_assign_model_eq_observed.
 Print Assumptions C05_lint_sub_interp_ops_models.
 Print Assumptions C05_interp_assign_agrees_with_value_model.
+Print Assumptions C05_obs_coerce_domain.
+Print Assumptions C05_coerce_models_eq_observed.
+Print Assumptions C05_lint_sub_interp_coerce.
+Print Assumptions C05_lint_sub_interp_coerce_models.
+Print Assumptions C05_lint_sub_interp_coerce_refuted.
+Print Assumptions C05_obs_inferred_domain.
+Print Assumptions C05_lint_inferred_eq_model.
+Print Assumptions C05_lint_inferred3_eq_model.
 Print Assumptions C05_lint_types_eq_interp.
 Print Assumptions C05_lint_sub_interp_vars_refuted.
 Print Assumptions C05_lint_sub_interp_calls_refuted.
